@@ -749,9 +749,18 @@ def c16(tier, seed):
     if tier == 'quick':
         scases = scases[:160]
     ck.add(run_cases(prog, threads.run_concurrent_case, scases), 'same with symbolic entry names (universe USYM), every interleaving')
+    # one call against a two-call program on the same directory: a session / creation of /a/b against "remove the child, then
+    # the parent" and "create the parent, then the child" (state that one thread's first call leaves for its second)
+    two = []
+    for sh in [(('a', 'd'), ('a_b', 'f')), (('a', 'd'),), (('a', 'd'), ('a_b', 'd'))]:
+        for c1 in [('write', 'a_b'), ('append', 'a_b'), ('create_dir', 'a_b'), ('remove_file', 'a_b')]:
+            for p2 in ([('remove_file', 'a_b'), ('remove_dir', 'a')], [('remove_dir', 'a_b'), ('remove_dir', 'a')], [('write', 'a_b'), ('remove_file', 'a_b')],
+                       [('remove_dir', 'a'), ('create_dir', 'a')]):
+                two.append({'cfg': 'mem', 'universe': 'U3', 'shape': sh, 'programs': [[c1], list(p2)], 'mode': 'linearizable'})
+    ck.add(run_cases(prog, threads.run_concurrent_case, two), '1 call against a 2-call program on one directory (child, then parent), every interleaving')
     if extra:
         ck.add(run_cases(prog, threads.run_concurrent_case, extra), '2x2, 3x1 calls and adapters over MemoryFS (sampled programs, every interleaving)')
-    ck.bounds = {'threads': '2 (quick); 2x2 and 3x1 sampled (thorough)', 'universe': 'U3 = {/a,/ab,/a/b}', 'interleaving_granularity': 'lock acquisition',
+    ck.bounds = {'threads': '2 (quick; 1 call each, plus 48 targeted 1x2-call programs); 2x2 and 3x1 sampled (thorough)', 'universe': 'U3 = {/a,/ab,/a/b}', 'interleaving_granularity': 'lock acquisition',
                  'programs_quick': 'all %d related call pairs from 6 representative trees (thorough: all %d trees)' % (len(pairs), len(shs))}
     ck.assumptions = THREAD_ASSUMPTIONS
     ck.rule = 'a state = (initial tree, thread programs); a transition = one complete interleaving (schedule) explored on the real MIR; all schedules of each program are enumerated'
@@ -768,11 +777,13 @@ def c17(tier, seed):
     dshapes = [sh for sh in shapes(u) if all(k == 'd' for _, k in sh)]
     targets = ['a', 'a_b', 'a_b_c', 'ab']
     cases = []
-    for cfg in (['mem', 'alt', 'ovl', 'ovl_lowerpre'] if tier != 'quick' else ['mem', 'ovl', 'ovl_lowerpre']):
+    for cfg in (['mem', 'alt', 'ovl', 'ovl_lowerpre', 'ovl_removed'] if tier != 'quick' else ['mem', 'ovl', 'ovl_lowerpre', 'ovl_removed']):
         for sh in dshapes:
             for i, t1 in enumerate(targets):
                 for t2 in targets[i:]:
                     if cfg == 'ovl' and tier == 'quick' and len(sh) > 1:
+                        continue
+                    if cfg == 'ovl_removed' and (not sh or (tier == 'quick' and (len(sh) > 2 or t1 in ('ab', 'a_b_c') or t2 in ('ab', 'a_b_c')))):
                         continue
                     if cfg == 'ovl_lowerpre' and (not sh or (tier == 'quick' and (len(sh) > 2 or t1 == 'ab' or t2 == 'ab'))):
                         continue
